@@ -12,6 +12,7 @@
   translated calls on a twin engine, and this model, line by line.
 -/
 import Kevo.Proofs.ServiceApi
+import Kevo.Gen.Consts
 namespace Kevo.Props.C19
 open Kevo Kevo.Service Kevo.Proofs.Service Kevo.Proofs.ServiceApi
 
@@ -124,5 +125,20 @@ example :
     (st.tx? 1).isNone ∧ (st.tx? 2).isSome ∧ st.nextID = 2 := by decide
 example : scanSpec { pfx := [97], limit := 1 } [([97], none), ([97, 98], some [1]), ([97, 99], some [2]), ([98], some [3])] (fun _ _ => [])
     = [([97, 98], [1])] := by decide
+
+/-- the record limit of the model is the log's constant, regenerated from wal.go on every run -/
+theorem maxBatchRecord_is_wal_constant : Kevo.Service.maxBatchRecord = Kevo.Gen.walParams.maxRecord := by decide
+
+/-- a commit the log refuses (one buffered entry larger than a log record) fails with the log's error for the service and
+    the embedded API alike (both run `Tx.commit`): nothing is applied, the transaction is finished, the write lock is free;
+    `handle_dead_after_finish` then applies to its handle. Exercised by the `limits` cases (handle reuse after the refusal). -/
+theorem refused_commit_no_effect (t : Tx) (e : Eng) (ha : t.active = true) (hro : t.ro = false) (hne : t.buf.isEmpty = false)
+    (hc : e.closed = false) (hbig : (bufOps t.buf).all batchEntryFits = false) :
+    (t.commit e).1 = some .recordTooLarge ∧ (t.commit e).2.1.active = false ∧
+    (t.commit e).2.2.store = e.store ∧ (t.commit e).2.2.wlock = false := by
+  simp [Tx.commit, ha, hro, hne, hc, hbig, unlock]
+
+example (v : Bytes) (hv : v.length = 40000) : (bufOps [([1], some v)]).all batchEntryFits = false := by
+  simp [bufOps, batchEntryFits, maxBatchRecord, hv]
 
 end Kevo.Props.C19
